@@ -7,6 +7,7 @@
 #include "vp.h"
 #include <config.h>
 #include "pixman-filter.c"
+#include "pixman-image.c"	/* the real pixman_image_set_filter and its n_params rule */
 
 void harness (void)
 {
@@ -24,6 +25,12 @@ void harness (void)
     VP_ASSERT (p[2] == pixman_int_to_fixed (BX) && p[3] == pixman_int_to_fixed (BY), "header: subsample bits");
     VP_ASSERT (n == 4 + w * (1 << BX) + h * (1 << BY), "announced length matches the header (pixman_image_set_filter's n_params rule)");
     VP_ASSERT (w <= WMAX && h <= WMAX, "width within the harness bound");
+    {
+	static pixman_image_t img;	/* zero-initialised common part: no previous filter parameters */
+	img.type = SOLID;
+	VP_ASSERT (pixman_image_set_filter (&img, PIXMAN_FILTER_SEPARABLE_CONVOLUTION, p, n), "pixman_image_set_filter accepts the block");
+	VP_ASSERT (img.common.filter == PIXMAN_FILTER_SEPARABLE_CONVOLUTION && img.common.n_filter_params == n && img.common.dirty, "filter installed and image marked dirty");
+    }
 #ifndef NO_SUM
     for (i = 0; i < (1 << BX); i++)
     {
